@@ -136,11 +136,31 @@ func TestVerifBounded_C06_Gossip(t *testing.T) {
 				}
 			case 4: // malformed traffic must not change anything
 				j := rnd.Intn(n)
-				before := map[string]string{}
-				for _, k := range keys {
-					v, _ := cls[j].Get(ctx, k)
-					before[k] = verifC06View(v)
+				// valid messages delivered in earlier steps are merged by per-key worker goroutines: wait until the node's
+				// view has stopped moving, otherwise their (legitimate) effect would be blamed on the junk below
+				quiesce := func() map[string]string {
+					last, stable := map[string]string{}, 0
+					for tries := 0; tries < 200 && stable < 4; tries++ {
+						cur := map[string]string{}
+						same := tries > 0
+						for _, k := range keys {
+							v, _ := cls[j].Get(ctx, k)
+							cur[k] = verifC06View(v)
+							if cur[k] != last[k] {
+								same = false
+							}
+						}
+						if same {
+							stable++
+						} else {
+							stable = 0
+						}
+						last = cur
+						time.Sleep(3 * time.Millisecond)
+					}
+					return last
 				}
+				before := quiesce()
 				junk := make([]byte, rnd.Intn(40))
 				rnd.Read(junk)
 				func() {
@@ -166,11 +186,10 @@ func TestVerifBounded_C06_Gossip(t *testing.T) {
 					b, _ = bad.Marshal()
 					kvs[j].NotifyMsg(b)
 				}()
-				time.Sleep(3 * time.Millisecond)
+				after := quiesce()
 				for _, k := range keys {
-					v, _ := cls[j].Get(ctx, k)
-					if verifC06View(v) != before[k] {
-						report("c06-malformed-changed", fmt.Sprintf("node %d key %s changed from %s to %s after malformed messages", j, k, before[k], verifC06View(v)))
+					if after[k] != before[k] {
+						report("c06-malformed-changed", fmt.Sprintf("node %d key %s changed from %s to %s after malformed messages", j, k, before[k], after[k]))
 					}
 				}
 			}
@@ -189,7 +208,24 @@ func TestVerifBounded_C06_Gossip(t *testing.T) {
 				}
 			}
 		}
-		time.Sleep(30 * time.Millisecond)
+		// updates handed to NotifyMsg are merged by worker goroutines: give them time to finish (they cannot add anything
+		// the full-state exchanges have not delivered already, so the comparison below is stable once they are done)
+		for w := 0; w < 100; w++ {
+			agree := true
+			for _, k := range keys {
+				v0, _ := cls[0].Get(ctx, k)
+				for i := 1; i < n; i++ {
+					vi, _ := cls[i].Get(ctx, k)
+					if verifC06View(vi) != verifC06View(v0) {
+						agree = false
+					}
+				}
+			}
+			if agree && w >= 5 {
+				break
+			}
+			time.Sleep(5 * time.Millisecond)
+		}
 		for _, k := range keys {
 			v0, _ := cls[0].Get(ctx, k)
 			for i := 1; i < n; i++ {
